@@ -10,7 +10,7 @@
               B2R 24 128 x = the real value of the binary32 number x;  column j frames = pixel j of every frame. *)
 From Coq Require Import ZArith Reals List Bool Lia Lra.
 From Flocq Require Import Core BinarySingleNaN Binary Bits.
-From Average Require Import AccModel Window AccProofs WindowProofs C10Proofs C10Examples.
+From Average Require Import AccModel Window AccProofs WindowProofs C10Proofs AcqProofs C10Examples.
 Import ListNotations.
 Open Scope Z_scope.
 
@@ -140,6 +140,92 @@ Proof. exact filter_emits_means. Qed.
 Print Assumptions C10_filter_emits_means.
 
 (* ---------------------------------------------------------------------------------------------------------
+   Several acquisitions on ONE filter instance (acquire.c: configure / start / ... / stop, again and again on the
+   same struct video_filter_s; Window.run_acquisitions is the fold of the per-acquisition model over the list of
+   acquisitions, handing what one thread held when it returned (end_state) to the entry of the next).
+
+   C10_no_state_between_acquisitions.  For EVERY list of acquisitions and every state `left` the filter might
+   have been left in:
+     (1) the history is the per-acquisition model applied to each acquisition on its own -- acquisition i
+         produces run_thread e_i steps_i, the thread started from frame_count = 0 and no accumulator;
+     (2) the result of acquisition i depends on acquisition i alone: two histories that agree at position i
+         (and may differ in everything before and after it, and in the state they started from) agree on what
+         acquisition i delivers. *)
+Theorem C10_no_state_between_acquisitions :
+  (forall (left : fstate) (acqs : list acquisition),
+     run_acquisitions_from left acqs = map (fun a => run_thread (fst a) (snd a)) acqs) /\
+  (forall (left left' : fstate) (acqs acqs' : list acquisition) (i : nat),
+     nth_error acqs i = nth_error acqs' i ->
+     nth_error (run_acquisitions_from left acqs) i = nth_error (run_acquisitions_from left' acqs') i).
+Proof. exact no_state_between_acquisitions. Qed.
+Print Assumptions C10_no_state_between_acquisitions.
+
+(* C10_acquisitions_windows.  C10_windows holds for every acquisition of every history: if acquisition number a
+   (window k >= 2, one shape, integer type, accumulator fits, no reset) consists of the frames fs in any
+   packetisation, then what the sink's ring receives DURING THAT ACQUISITION is spec_outputs k fs -- a function of
+   that acquisition's frames alone: window i of ITS frames, id of ITS frame i*k (so the first window starts at its
+   first frame), nothing skipped or counted twice -- whatever the other acquisitions of the history were (other
+   window sizes incl. 0/1, shapes, sample types, frame counts that are not multiples of their k, errors). *)
+Theorem C10_acquisitions_windows :
+  forall (acqs : list acquisition) (a : nat) (e : env) (sh : shape) (steps : list (list frame * bool)) (fs : list frame),
+    nth_error acqs a = Some (e, steps) ->
+    2 <= e_k e ->
+    acc_bytes sh < e_outcap e ->
+    is_integer_type (stype_of_code (ty sh)) = true ->
+    Forall (fun fr => f_shape fr = sh) fs ->
+    Forall (fun s => snd s = false) steps ->
+    concat (map fst steps) = fs ->
+    let k := Z.to_nat (e_k e) in
+    let N := length fs in
+    exists outs fin,
+      nth_error (run_acquisitions acqs) a = Some (outs, fin, 0) /\
+      length outs = length steps /\
+      acquisition_outputs acqs a = spec_outputs k fs /\
+      concat outs ++ fin = spec_outputs k fs /\
+      length (spec_outputs k fs) = (N / k + (if (N mod k =? 0)%nat then 0 else 1))%nat /\
+      (forall i, (i < N / k)%nat ->
+         let w := window k i fs in
+         let o := nth i (acquisition_outputs acqs a) dummy_oframe in
+         length w = k /\
+         (forall j, (j < k)%nat -> nth j w dummy_frame = nth (i * k + j) fs dummy_frame) /\
+         o_id o = f_id (nth (i * k) fs dummy_frame) /\
+         o_shape o = set_type sh code_f32 /\
+         o_bytes o = acc_bytes sh /\
+         o_px o = window_mean (repeat f32_zero (Z.to_nat (npx sh))) (map frame_values w)) /\
+      concat (map (fun i => window k i fs) (seq 0 (N / k))) ++ remainder k fs = fs /\
+      length (remainder k fs) = (N mod k)%nat.
+Proof. exact acquisitions_windows. Qed.
+Print Assumptions C10_acquisitions_windows.
+
+(* C10_acquisitions_emit_means.  C10_filter_emits_means for every acquisition of every history: pixel j of the
+   i-th frame delivered during acquisition a is round32 (S * round32 (1/k)) for the exact integer sum S of pixel j
+   over frames [i*k, (i+1)*k) of acquisition a. *)
+Theorem C10_acquisitions_emit_means :
+  forall (acqs : list acquisition) (a : nat) (e : env) (sh : shape) (steps : list (list frame * bool)) (fs : list frame),
+    nth_error acqs a = Some (e, steps) ->
+    2 <= e_k e ->
+    acc_bytes sh < e_outcap e ->
+    is_integer_type (stype_of_code (ty sh)) = true ->
+    Forall (fun fr => f_shape fr = sh) fs ->
+    Forall (fun fr => Forall is_byte (f_data fr)) fs ->
+    Forall (fun fr => length (frame_values fr) = Z.to_nat (npx sh)) fs ->
+    e_k e * maxval (stype_of_code (ty sh)) < 2 ^ 24 ->
+    Forall (fun s => snd s = false) steps ->
+    concat (map fst steps) = fs ->
+    let k := Z.to_nat (e_k e) in
+    forall i j, (i < length fs / k)%nat -> (j < Z.to_nat (npx sh))%nat ->
+      let out := nth j (o_px (nth i (acquisition_outputs acqs a) dummy_oframe)) f32_zero in
+      let S := zsum (column j (map frame_values (window k i fs))) in
+      Z.abs S < 2 ^ 24 /\
+      B2R 24 128 out = round32 (IZR S * round32 (1 / IZR (e_k e))) /\
+      is_finite 24 128 out = true /\
+      (forall p, 0 <= p -> e_k e = 2 ^ p -> B2R 24 128 out = (IZR S / IZR (e_k e))%R) /\
+      (Rabs (B2R 24 128 out - IZR S / IZR (e_k e)) <=
+       Rabs (IZR S / IZR (e_k e)) * (bpow radix2 (-23) + bpow radix2 (-48)))%R.
+Proof. exact acquisitions_emit_means. Qed.
+Print Assumptions C10_acquisitions_emit_means.
+
+(* ---------------------------------------------------------------------------------------------------------
    Non-vacuity: a concrete acquisition that meets every hypothesis above and is not trivial -- u8 frames of
    2 pixels, window 2, five frames (two complete windows and a trailing frame), four packets of sizes 1,3,0,1,
    an output ring of 1 KiB whose memory held 0x3f3f3f3f everywhere. *)
@@ -211,3 +297,42 @@ Proof.
   - simpl Z.sub. change (bpow radix2 (-2)) with (/ 4)%R. change (bpow radix2 (-1)) with (/ 2)%R.
     rewrite Rabs_pos_eq; lra.
 Qed.
+
+(* Non-vacuity of the multi-acquisition theorems: a history of three acquisitions on one filter.  The first
+   (window 2, five frames) ends inside a window, the second has window 1 (the filter thread sees no frame), the
+   third (window 3, four frames, ids restarting at 0) meets every hypothesis of C10_acquisitions_windows /
+   C10_acquisitions_emit_means at position 2 and delivers the mean of ITS frames 0,1,2 under id 0, then its
+   trailing frame 3 -- the same as that acquisition run on a fresh filter. *)
+Example acquisitions_hypotheses_met :
+  nth_error ex_acqs 2 = Some (ex_env3, ex_steps3) /\
+  2 <= e_k ex_env3 /\
+  acc_bytes ex_sh < e_outcap ex_env3 /\
+  Forall (fun fr => f_shape fr = ex_sh) ex_fs3 /\
+  Forall (fun fr => Forall is_byte (f_data fr)) ex_fs3 /\
+  Forall (fun fr => length (frame_values fr) = Z.to_nat (npx ex_sh)) ex_fs3 /\
+  e_k ex_env3 * maxval (stype_of_code (ty ex_sh)) < 2 ^ 24 /\
+  Forall (fun s => snd s = false) ex_steps3 /\
+  concat (map fst ex_steps3) = ex_fs3 /\
+  (length ex_fs mod Z.to_nat (e_k ex_env) <> 0)%nat /\          (* the first acquisition ends inside a window *)
+  (0 < length ex_fs3 / Z.to_nat (e_k ex_env3))%nat.
+Proof.
+  split; [reflexivity|].
+  split; [simpl; lia|].
+  split; [reflexivity|].
+  split; [repeat constructor|].
+  split; [unfold is_byte; repeat (constructor; try lia)|].
+  split; [repeat constructor|].
+  split; [simpl; lia|].
+  split; [repeat constructor|].
+  split; [reflexivity|].
+  split; simpl; lia.
+Qed.
+
+Example acquisitions_example_run :
+  map (fun a => map (fun o => (o_id o, ty (o_shape o), map f32_bits (o_px o))) (acquisition_outputs ex_acqs a)) [0; 1; 2]%nat =
+  [ [(7, 4, [1097859072; 1132396544]); (9, 4, [1069547520; 0]); (11, 4, [1077936128; 1082130432])];
+    [];
+    [(0, 4, [1086324736; 1114636288]);        (* frames 0,1,2 of the third acquisition: 6.0, 60.0 *)
+     (3, 4, [1065353216; 1073741824])] ]      (* its trailing frame 3: the sums 1.0, 2.0 *)
+  /\ map obs (acquisition_outputs ex_acqs 2) = map obs (run_outputs ex_env3 ex_steps3).
+Proof. vm_compute. split; reflexivity. Qed.
